@@ -472,6 +472,7 @@ func (s *seqRT) ruleIterMap() {
 	// ITER.ASSERT: no panicking path; key/value derive from Key()/Value() of the same MapIter
 	noPanic := true
 	derive := true
+	why := ""
 	for _, o := range curOuts {
 		if o.Panicked {
 			noPanic = false
@@ -480,25 +481,50 @@ func (s *seqRT) ruleIterMap() {
 		}
 		k := canon(pairField(o.Ret[0], "Key"))
 		v := canon(pairField(o.Ret[0], "Val"))
-		var keyCall, valCall bool
+		// provenance: Key() -> Interface() -> (assertion) -> pair.Key, and the same for Value()
+		prov := map[string]string{} // result symbol of Interface() -> "Key" | "Value"
+		src := map[string]string{}  // result symbol of Key()/Value() -> which
+		okAssert := map[string]bool{}
 		for _, e := range o.St.Events {
-			if e.Kind == "call" && e.Fn != nil && len(e.Args) == 1 && canon(e.Args[0]) == "⟨F:"+itField+"⟩" {
-				if e.Fn.Name() == "Key" {
-					keyCall = true
+			if e.Kind != "call" || e.Fn == nil || len(e.Args) != 1 || e.Ret == nil {
+				continue
+			}
+			switch e.Fn.Name() {
+			case "Key", "Value":
+				if canon(e.Args[0]) == "⟨F:"+itField+"⟩" {
+					src[canon(e.Ret)] = e.Fn.Name()
 				}
-				if e.Fn.Name() == "Value" {
-					valCall = true
+			case "Interface":
+				if w, ok := src[canon(e.Args[0])]; ok {
+					prov[canon(e.Ret)] = w
 				}
 			}
 		}
-		if !keyCall || !valCall || !(strings.Contains(k, "Interface") || k == "zero" || strings.HasPrefix(k, "zero")) || !(strings.Contains(v, "Interface") || strings.HasPrefix(v, "zero")) {
+		for _, l := range o.St.Labels {
+			for sym, w := range prov {
+				if strings.Contains(epochRe.ReplaceAllString(l, ""), strings.Trim(sym, "⟨⟩")) && strings.HasSuffix(l, "=true") {
+					okAssert[w] = true
+				}
+			}
+		}
+		from := func(val, which string) bool {
+			for sym, w := range prov {
+				if w == which && strings.Contains(val, strings.Trim(sym, "⟨⟩")) {
+					return true
+				}
+			}
+			// a failed assertion (nil interface element) yields the zero value of that component only
+			return strings.HasPrefix(val, "zero") && !okAssert[which]
+		}
+		if !from(k, "Key") || !from(v, "Value") {
 			derive = false
+			why = fmt.Sprintf("on a path Key = %s, Val = %s", k, v)
 		}
 	}
 	if noPanic {
 		c.ok("ITER.ASSERT", "seq."+ctor+" Current()", s.w.FnPos(info.current), fmt.Sprintf("%d paths (each type assertion succeeding / failing): none panics", len(curOuts)))
 	}
-	c.check(derive, rule, "seq."+ctor+" Current()", s.w.FnPos(info.current), "key and value are the MapIter's current Key()/Value()", "Key/Val of Current() do not derive from iter.Key()/iter.Value() of the iterator's own MapIter")
+	c.check(derive, rule, "seq."+ctor+" Current()", s.w.FnPos(info.current), "key and value are the MapIter's current Key()/Value()", "Key must be the MapIter's current Key() and Val its current Value(), each component on its own (a nil interface key must not lose the entry's value): "+why)
 }
 
 func (s *seqRT) ruleIterChan() {
